@@ -29,7 +29,7 @@ def run_case(case):
 
 def evidence_extra(results, counters, bins, tier):
     out = {}
-    for n in (1, 2, 3, 4):
+    for n in (1, 2, 3, 4, 5):
         hit = len(bins.get(f"state:n{n}", ()))
         total = n * (1 << n) * 2
         # (owner, mask, busy): busy implies the owner requests, so half of the busy states are unreachable
